@@ -610,35 +610,39 @@ class BaseWorklist(list):
         dst_start, dst_end = dst_wells[0], dst_wells[-1]
         excluded_dst_wells = set(range(dst_start, dst_end + 1)).difference(dst_wells)
 
-        # update volume tracking first: a rejected step must not end up in the worklist
-        n_dst = len(dst_wells)
-        source.remove(source.wells[0, source_column], volume * n_dst, label=label)
-        src_composition = source.get_well_composition(source.wells[0, source_column])
-        destination.add(destination_wells, volume, label=label, compositions=[src_composition] * n_dst)
+        # hand over to low-level command implementation and update the volume tracking;
+        # a distribution that is rejected (invalid parameters or volume limits) must not leave records behind
+        n_records = len(self)
+        try:
+            self.comment(label)
+            self.reagent_distribution(
+                source.name,
+                src_start,
+                src_end,
+                destination.name,
+                dst_start,
+                dst_end,
+                volume=volume,
+                diti_reuse=diti_reuse,
+                multi_disp=multi_disp,
+                exclude_wells=excluded_dst_wells,
+                liquid_class=liquid_class,
+                direction=direction,
+                src_rack_id=src_rack_id,
+                src_rack_type=src_rack_type,
+                dst_rack_id=dst_rack_id,
+                dst_rack_type=dst_rack_type,
+            )
+            n_dst = len(dst_wells)
+            source.remove(source.wells[0, source_column], volume * n_dst, label=label)
+            src_composition = source.get_well_composition(source.wells[0, source_column])
+            destination.add(destination_wells, volume, label=label, compositions=[src_composition] * n_dst)
+        except Exception:
+            del self[n_records:]
+            raise
         if destination is source:
             # one history entry per operation, like transfer() within one labware
             source.condense_log(2, label=label)
-
-        # hand over to low-level command implementation
-        self.comment(label)
-        self.reagent_distribution(
-            source.name,
-            src_start,
-            src_end,
-            destination.name,
-            dst_start,
-            dst_end,
-            volume=volume,
-            diti_reuse=diti_reuse,
-            multi_disp=multi_disp,
-            exclude_wells=excluded_dst_wells,
-            liquid_class=liquid_class,
-            direction=direction,
-            src_rack_id=src_rack_id,
-            src_rack_type=src_rack_type,
-            dst_rack_id=dst_rack_id,
-            dst_rack_type=dst_rack_type,
-        )
         return
 
     def __repr__(self) -> str:
